@@ -30,7 +30,7 @@ Section Wrappers.
     then (s2l "socket_connected", PTuple [serialize (arg_sid args) ns; stamp])
     else if py_eq ev (PStr (s2l "disconnect"))
     then (s2l "socket_disconnected", PTuple [PStr ns; sid; nth 1 args PNone; stamp])
-    else (s2l "event_received", PTuple [PStr ns; sid; PTuple (ev :: tl args); stamp]).
+    else (s2l "event_received", PTuple [PStr ns; sid; PList (ev :: tl args); stamp]).   (* a LIST since 34a4987 *)
   Definition w_trigger_event (ev : pv) (ns : str) (args : list pv) : SM (option pv) :=
     before (admin_emit (fst (trigger_report ev ns args)) (snd (trigger_report ev ns args)))
            (trigger_event c ev ns args).
